@@ -76,6 +76,9 @@ def constraint_cost(cons, pvals):
         if kind == "s":
             i, v, u = spec
             c += ((pvals[i] - v) / u) ** 2
+        elif kind == "sr":                      # relative: the declared number is a fraction of the constraint value
+            i, v, u = spec
+            c += ((pvals[i] - v) / (u * abs(v))) ** 2
         else:
             idx, vals, cov = spec
             r = np.asarray(pvals)[idx] - np.asarray(vals)
@@ -83,7 +86,7 @@ def constraint_cost(cons, pvals):
     return c
 
 
-CONS = {"none": [], "simple": [("s", (0, 1.0, 0.3))], "matrix": [("m", ([0, 1], [1.0, 0.5], [[0.09, 0.01], [0.01, 0.04]]))], "both": [("s", (1, 0.2, 0.5)), ("m", ([0, 1], [1.0, 0.5], [[0.09, 0.01], [0.01, 0.04]]))]}
+CONS = {"relative": [("sr", (0, 2.5, 0.04)), ("sr", (1, -0.4, 0.5))], "none": [], "simple": [("s", (0, 1.0, 0.3))], "matrix": [("m", ([0, 1], [1.0, 0.5], [[0.09, 0.01], [0.01, 0.04]]))], "both": [("s", (1, 0.2, 0.5)), ("m", ([0, 1], [1.0, 0.5], [[0.09, 0.01], [0.01, 0.04]]))]}
 
 
 def add_cons(fit, cons):
@@ -91,6 +94,8 @@ def add_cons(fit, cons):
     for kind, spec in cons:
         if kind == "s":
             fit.add_parameter_constraint(names[spec[0]], spec[1], spec[2])
+        elif kind == "sr":
+            fit.add_parameter_constraint(names[spec[0]], spec[1], spec[2], relative=True)
         else:
             fit.add_matrix_parameter_constraint([names[q] for q in spec[0]], spec[1], spec[2])
 
@@ -165,7 +170,9 @@ def gen_indexed(tier, seed):
     ids = ["chi2", "chi2_covariance", "chi2_pointwise", "chi2_no_errors", "chi2_fast", "nll-gaussian", "nllr-gaussian", "nll-poisson", "nllr-poisson", "gauss_approximation", "gauss_approximation_covariance_fast", "gauss_approximation_pointwise"]
     for cf in ids:
         for mix in ([], ["y_abs"], ["y_rel_model"], ["y_abs_cor", "y_rel_data"], ["y_cov", "y_abs_model"]):
-            for cons in ("none", "both"):
+            for cons in ("none", "both", "relative"):
+                if cons == "relative" and mix not in ([], ["y_abs"]):
+                    continue
                 yield {"cost": cf, "mix": mix, "constraints": cons}
 
 
